@@ -36,7 +36,25 @@ func (a *ad) Apply(op core.Op) (interface{}, error) {
 		return []interface{}{v, ok}, nil
 	case "PushWithExpand":
 		a.r.PushWithExpand(core.ArgInt(op, 0))
-		return []interface{}{}, nil
+		return []interface{}{a.r.Cap()}, nil
+	case "PushN":
+		k, b, m := core.ArgInt(op, 0), core.ArgInt(op, 1), 0
+		for i := 1; i <= k; i++ {
+			if a.r.Push(b + i) {
+				m++
+			}
+		}
+		return []interface{}{m}, nil
+	case "PopN":
+		out := []interface{}{}
+		for i := 0; i < core.ArgInt(op, 0); i++ {
+			v, ok := a.r.Pop()
+			if !ok {
+				break
+			}
+			out = append(out, v)
+		}
+		return out, nil
 	case "Recap":
 		return []interface{}{a.r.Recap(core.ArgInt(op, 0))}, nil
 	case "Query":
@@ -63,14 +81,54 @@ func (a *ad) Drain() interface{} {
 	return out
 }
 
-type gen struct{}
+type gen struct {
+	big  int // > 0: a large ring of this capacity, driven through a fixed opening (see Next)
+	rot  int
+	base int
+}
 
-func (gen) Init(rng *rand.Rand) json.RawMessage {
-	b, _ := json.Marshal(map[string]int{"cap": 1 + rng.Intn(6)})
+func (g *gen) Init(rng *rand.Rand) json.RawMessage {
+	*g = gen{}
+	c := 1 + rng.Intn(6)
+	if rng.Intn(8) == 0 {
+		// a large ring whose head is moved deep into the buffer before the ring is filled and expanded
+		g.big = []int{70, 300, 600, 1100, 2100}[rng.Intn(5)]
+		g.rot = []int{0, 1, g.big / 2, g.big*9/10 - 1, g.big - 1}[rng.Intn(5)]
+		c = g.big
+	}
+	b, _ := json.Marshal(map[string]int{"cap": c})
 	return b
 }
 
-func (gen) Next(rng *rand.Rand, step int) core.Op {
+func (g *gen) Next(rng *rand.Rand, step int) core.Op {
+	if g.big > 0 {
+		switch step {
+		case 0:
+			return core.MkOp("PushN", g.rot, 1000)
+		case 1:
+			return core.MkOp("PopN", g.rot)
+		case 2:
+			return core.MkOp("PushN", g.big, 5000)
+		case 3, 4:
+			return core.MkOp("PushWithExpand", 77+step)
+		case 5:
+			return core.MkOp("Query")
+		case 6:
+			return core.MkOp("PopN", g.big/2)
+		case 7:
+			return core.MkOp("PushN", 3*g.big, 20000) // fills what the expansion added, across the wrap
+		case 8:
+			return core.MkOp("PushWithExpand", 99)
+		case 9:
+			return core.MkOp("PopN", 5*g.big)
+		}
+		if rng.Intn(3) == 0 {
+			return core.MkOp("PushN", rng.Intn(3*g.big), 30000+step*4000)
+		}
+		if rng.Intn(3) == 0 {
+			return core.MkOp("PopN", rng.Intn(2*g.big))
+		}
+	}
 	switch x := rng.Intn(20); {
 	case x < 6:
 		return core.MkOp("Push", 1+rng.Intn(9))
@@ -87,4 +145,4 @@ func (gen) Next(rng *rand.Rand, step int) core.Op {
 	}
 }
 
-func main() { core.Main("Ring", func() core.Adapter { return &ad{} }, gen{}) }
+func main() { core.Main("Ring", func() core.Adapter { return &ad{} }, &gen{}) }
